@@ -64,9 +64,12 @@ def r1_r4(ctx, facts):
         raise AnchorLost("expected one load of sender_dropped in recv, found %d" % len(loads))
     load = loads[0]
     polls = [c for c in b.calls_to("core::future::future::Future::poll")]
-    if len(polls) != 1:
-        raise AnchorLost("expected exactly one await (poll) in recv, found %d" % len(polls))
-    poll = polls[0]
+    # the await this rule is about is the one on this iteration's notified(); any other suspension point is judged by
+    # R4 (cancel safety) on its own position, not refused for merely existing
+    waits = [p for p in polls if _derives_from(b, df, p, notified)]
+    if len(waits) != 1:
+        raise AnchorLost("expected exactly one await on notified() in recv, found %d (of %d awaits)" % (len(waits), len(polls)))
+    poll = waits[0]
     ys = yields(b)
     # enable's receiver derives from this iteration's notified()
     r1.instance("notified-dominates-enable", b.dominates(notified.bb, enable.bb), "notified() must be created before enable()", enable.span)
